@@ -633,6 +633,31 @@ func validateRename(op *fstxn.FsTxn, inodes []*inode.Inode, fromfh fh.Fh, tofh f
 	return true
 }
 
+// Is inode anc the directory inum itself or one of the directories above
+// it?  Walks ".." from inum to the root, one transaction per step, holding
+// one lock at a time.  The caller holds renameMu, so the path cannot change.
+func (nfs *Nfs) isAncestor(anc common.Inum, inum common.Inum) bool {
+	var cur = inum
+	for i := uint64(0); i < uint64(nfs.fsstate.Super.NInode()); i++ {
+		if cur == anc {
+			return true
+		}
+		op := fstxn.Begin(nfs.fsstate)
+		ip := op.GetInodeInum(cur)
+		if ip == nil || ip.Kind != nfstypes.NF3DIR {
+			op.Abort()
+			return false
+		}
+		parent, _ := dir.LookupName(ip, op, "..")
+		op.Abort()
+		if parent == common.NULLINUM || parent == cur {
+			return false
+		}
+		cur = parent
+	}
+	return false
+}
+
 func (nfs *Nfs) NFSPROC3_RENAME(args nfstypes.RENAME3args) nfstypes.RENAME3res {
 	defer nfs.recordOp(nfstypes.NFSPROC3_RENAME, time.Now())
 	var reply nfstypes.RENAME3res
@@ -643,8 +668,17 @@ func (nfs *Nfs) NFSPROC3_RENAME(args nfstypes.RENAME3args) nfstypes.RENAME3res {
 	var frominum common.Inum
 	var toinum common.Inum
 	var moved *inode.Inode // the source, when the rename holds its lock
+	var checked common.Inum = common.NULLINUM
 	var success bool = false
 	var done bool = false
+
+	if fh.MakeFh(args.From.Dir).Ino != fh.MakeFh(args.To.Dir).Ino {
+		// Between two directories: one such rename at a time, so that the
+		// check below (the source is not an ancestor of its new parent)
+		// still holds when the rename is applied.
+		nfs.renameMu.Lock()
+		defer nfs.renameMu.Unlock()
+	}
 
 	for !success {
 		op = fstxn.Begin(nfs.fsstate)
@@ -694,6 +728,21 @@ func (nfs *Nfs) NFSPROC3_RENAME(args nfstypes.RENAME3args) nfstypes.RENAME3res {
 		toinum = toInumLookup
 
 		util.DPrintf(3, "frominum %d toinum %d\n", frominum, toinum)
+
+		if dipto != dipfrom && frominum != checked {
+			// A directory cannot move into itself or into a directory
+			// below it; look (without holding locks) on the way from the
+			// new parent up to the root.
+			topinum := dipto.Inum
+			op.Abort()
+			if nfs.isAncestor(frominum, topinum) {
+				reply.Status = nfstypes.NFS3ERR_INVAL
+				done = true
+				break
+			}
+			checked = frominum
+			continue
+		}
 
 		// rename to itself?
 		if dipto == dipfrom && toinum == frominum {
